@@ -43,8 +43,8 @@ def build_sweep(timeout=1800):
 # ----------------------------------------------------------------------------- model
 
 def model_run(ctx):
-    # vacuity control on every 9th case with -coverage (coverage slows the bignum arithmetic down 2-3x) ...
-    r = tlc_mc(ctx, "MC_Stimulus", constants={"Emit": "FALSE", "Stride": 9}, tag="stim_model_cov", workers=6)
+    # vacuity control on every 25th case of each kind with -coverage (coverage slows the bignum arithmetic down 2-3x) ...
+    r = tlc_mc(ctx, "MC_Stimulus", constants={"Emit": "FALSE", "Stride": 25}, tag="stim_model_cov", workers=6)
     zero = coverage_zero_actions(r.out_path, {"Stimulus", "MC_Stimulus"})
     if zero:
         raise ToolError("vacuity: actions never taken in MC_Stimulus: %s" % zero)
